@@ -320,8 +320,8 @@ func nativeReplay(verifDir, pkg string, cases []replayCase) (map[string]*replayO
 	if err != nil {
 		return nil, "", err
 	}
-	os.MkdirAll(filepath.Join(verifDir, "out", "replay"), 0o755)
-	batch := filepath.Join(verifDir, "out", "replay", fmt.Sprintf("batch-%d-%d.json", os.Getpid(), time.Now().UnixNano()))
+	os.MkdirAll(filepath.Join(scratchDir(verifDir), "out", "replay"), 0o755)
+	batch := filepath.Join(scratchDir(verifDir), "out", "replay", fmt.Sprintf("batch-%d-%d.json", os.Getpid(), time.Now().UnixNano()))
 	b, _ := json.Marshal(cases)
 	if err := os.WriteFile(batch, b, 0o644); err != nil {
 		return nil, "", err
@@ -336,7 +336,7 @@ func nativeReplay(verifDir, pkg string, cases []replayCase) (map[string]*replayO
 	env := append(os.Environ(), "VERIF_REPLAY_FILE="+batch, "GOFLAGS=-mod=mod", "GOPROXY=off", "GOSUMDB=off", "GOTOOLCHAIN=local")
 	// build the test binary, then run it under an address-space limit so that a hostile
 	// allocation kills only the replay process (reported as such), never the machine
-	bin := filepath.Join(verifDir, "out", "replay", fmt.Sprintf("replay-%d-%d.test", os.Getpid(), time.Now().UnixNano()))
+	bin := filepath.Join(scratchDir(verifDir), "out", "replay", fmt.Sprintf("replay-%d-%d.test", os.Getpid(), time.Now().UnixNano()))
 	defer os.Remove(bin)
 	build := exec.Command("go", "test", "-c", "-tags", "verif", "-overlay", ovPath, "-vet=off", "-o", bin, target)
 	build.Dir = repoDir
@@ -415,7 +415,7 @@ func runHarness(verifDir string, spec HarnessSpec, seed int, thorough bool) (*Ha
 		e.fnStats = map[string][3]int{}
 	}
 	if thorough {
-		e.smtDir = filepath.Join(verifDir, "out", "smt")
+		e.smtDir = filepath.Join(scratchDir(verifDir), "out", "smt")
 	}
 	e.loadKnownFindings(verifDir, spec.Name)
 	func() {
@@ -525,6 +525,20 @@ func runHarness(verifDir string, spec HarnessSpec, seed int, thorough bool) (*Ha
 		res.Inconcl = append(res.Inconcl, fmt.Sprintf("%d solver errors (first: %s)", len(solver.Errors), solver.Errors[0]))
 	}
 	res.Extra = e.extra
+	e.printFnStats()
+	res.WallS = time.Since(t0).Seconds()
+	sort.SliceStable(res.Obligations, func(i, j int) bool { return res.Obligations[i].ID < res.Obligations[j].ID })
+	return res, nil
+}
+
+func tail(s string, n int) string {
+	if len(s) > n {
+		return s[len(s)-n:]
+	}
+	return s
+}
+
+func (e *Engine) printFnStats() {
 	if e.fnStats != nil {
 		type kv struct {
 			k string
@@ -542,14 +556,4 @@ func runHarness(verifDir string, spec HarnessSpec, seed int, thorough bool) (*Ha
 			fmt.Fprintf(os.Stderr, "%-70s calls=%d paths=%d merged=%d\n", x.k, x.v[0], x.v[1], x.v[2])
 		}
 	}
-	res.WallS = time.Since(t0).Seconds()
-	sort.SliceStable(res.Obligations, func(i, j int) bool { return res.Obligations[i].ID < res.Obligations[j].ID })
-	return res, nil
-}
-
-func tail(s string, n int) string {
-	if len(s) > n {
-		return s[len(s)-n:]
-	}
-	return s
 }
